@@ -102,6 +102,9 @@ def run(rep, tier, seed, replay=None):
         rep.cov["leanchecker"] = "ok" if okc else out
         if not okc:
             rep.violation("unverified", dict(broken="leanchecker Photon.Properties.C19", log=out), no_input=True)
+    if replay and json.load(open(replay)).get("harness") == "mv_obj":
+        run_mv(rep, tier, seed, [json.load(open(replay))["program"]] * 5)
+        return
     binary = hsim.build(rep, "hsim_objcache")
     if not binary:
         return
@@ -177,3 +180,69 @@ def run(rep, tier, seed, replay=None):
     rep.sample(progs[-1])
     for kid, (k, p, v) in seen.items():
         rep.known_finding("%s (e.g. program `%s`: %s)" % (k["description"], " | ".join(p)[:200], v[:140]))
+    if not replay:
+        run_mv(rep, tier, seed, None)
+
+
+def run_mv(rep, tier, seed, progs):
+    """B. the cache used from several vCPUs (real races), stamped log validated by the Lean acceptor `objlog`"""
+    import concurrent.futures as cf
+    binary = hsim.build(rep, "mv_obj")
+    if not binary:
+        return
+    if progs is None:
+        r = C.rng(seed, "c19mv")
+        big = tier == "thorough"
+        progs = [["objc %d %d %d %d %d %d %d %d" % (r.choice([2, 3, 4]), r.choice([1, 2, 3]), r.choice([1500, 3000] if not big else [5000, 15000]), r.choice([1, 1, 2, 3]),
+                                                   r.choice([50, 300, 2000]), r.choice([10, 30, 60]), r.choice([0, 10, 30]), r.choice([0, 10, 30]))]
+                 for _ in range(60 if big else 12)]
+    shards = [progs[i::4] for i in range(4)]
+    try:
+        with cf.ThreadPoolExecutor(4) as ex:
+            parts = list(ex.map(lambda sh: hsim.run_programs(binary, sh, model="objlog", timeout=3000) if sh else [], shards))
+    except RuntimeError as ex_:
+        rep.violation("unverified", dict(broken="multi-vCPU run (mv_obj) failed: %s" % ex_), no_input=True)
+        return
+    known = C.known_findings("C19")
+    nev, okc, seen = 0, 0, {}
+    for sh, results in zip(shards, parts):
+        for p, res in zip(sh, results):
+            nev += len(res.trace)
+            w = p[0].split()
+            rep.distinct(("mv", "nv%s" % w[1], "keys%s" % min(int(w[4]), 2), res.result))
+            viol = []
+            if res.result.startswith("result hung"):
+                viol.append("nobody made progress for 3 s (%s)" % next((l for l in res.trace if l.startswith("stalled")), ""))
+            if res.result.startswith("result crashed"):
+                viol.append("the runtime crashed: " + res.result)
+            for l in res.trace:
+                t = l.split()
+                if t[0] == "dead":
+                    viol.append("an acquirer holds an object that has been destroyed (%s)" % l)
+                elif t[0] == "refs":
+                    viol.append("an object was destroyed while %s acquirer(s) were inside (%s)" % (t[3], l))
+            if res.reject:
+                i, v = res.reject
+                viol.append("Lean acceptor `objlog` rejected `%s`: %s" % (res.trace[i], v[len("reject "):]))
+            unlisted = []
+            for v in viol:
+                k = [x for x in known if x["signature"] in v]
+                if k:
+                    seen.setdefault(k[0]["id"], (k[0], p, v))
+                else:
+                    unlisted.append(v)
+            if not viol:
+                okc += 1
+            if unlisted and not rep.violations:
+                rep.violation("counterexample", dict(harness="mv_obj", program=p, expected=unlisted[0], all=unlisted[:5],
+                                                     note="real races on real vCPUs: replaying runs the program 5 times", trace=res.trace[-12:]))
+    rep.count(nev)
+    rep.cov["mv_programs"] = len(progs)
+    rep.cov["mv_events"] = nev
+    rep.cov["mv_runs_accepted"] = okc
+    rep.cov["mv_rule"] = ("the real ObjectCache<int, Obj*> used by 1..3 photon threads on each of 2..4 vCPUs (OS threads): acquire with constructors that return at "
+                          "once, yield, sleep or fail, hold (yield / sleep), plain and recycling release with destroy, 1..3 keys, lifespans 50..2000 us with the "
+                          "expiry timer on the creating vCPU; destroyed objects stay recognisable (quarantined); the stamped log (constructor begin/end, acquired, "
+                          "releasing, destroyed) is validated by the Lean acceptor `objlog`, in-harness counters report holders inside a destroyed object")
+    for kid, (k, p, v) in seen.items():
+        rep.known_finding("%s (e.g. program `%s`: %s)" % (k["description"], p[0], v[:140]))
